@@ -9,7 +9,7 @@ NB=/root/.rustup/toolchains/nightly-x86_64-unknown-linux-gnu/lib/rustlib/x86_64-
 rm -rf "$OUT"; mkdir -p "$OUT/prof"
 export CARGO_NET_OFFLINE=true
 cd /verif/harness
-RUSTFLAGS="-C instrument-coverage" cargo +nightly build --offline --target-dir "$OUT/target" --bin harness 2>&1 | tail -2
+LLVM_PROFILE_FILE="$OUT/prof/build-%p.profraw" RUSTFLAGS="-C instrument-coverage" cargo +nightly build --offline --target-dir "$OUT/target" --bin harness 2>&1 | tail -2
 BIN="$OUT/target/debug/harness"
 DRIVER=/verif/lean/.lake/build/bin/driver
 for id in C01 C02 C03 C04 C05 C06 C07 C08 C09 C10 C11 C12 C13 C14 C15 C16 C17; do
